@@ -166,7 +166,10 @@ class SymStream:
             self._file.put(Rec('array', array.nbytes(), array, meta=array.dtype))
             return
         a = np.asarray(array)
-        if a.dtype == object:
+        src = getattr(array, '_src_dtype', None)  # element type of the scipp variable whose .values these are (object arrays of terms)
+        if a.dtype == object and src in ('float32', 'int32', 'int64', 'float64'):
+            item, dt = np.dtype(src).itemsize, src
+        elif a.dtype == object:
             item, dt = 8, 'float64'
         else:
             item, dt = a.dtype.itemsize, a.dtype.name
